@@ -11,6 +11,7 @@ is a data type object or simply a data type. RTLIR instance type Signal
 can be parameterized by the generated type objects.
 """
 from functools import reduce
+import re
 from hashlib import blake2b
 from math import ceil, log2
 
@@ -112,10 +113,21 @@ class Struct( BaseRTLIRDataType ):
 
   def get_name( s ):
     full_name = s.get_full_name()
-    if len(full_name) < 64:
+    cls_name  = s.cls.__name__
+    if not re.fullmatch( r'[A-Za-z_][A-Za-z0-9_$]*', cls_name ):
+      # mk_bitstruct( "Msg<8>", ... ): the class name goes into an identifier
+      # of the target language. Keep its legal characters, and tell it from
+      # other names that look alike then ( Msg<8>, Msg(8) ) by a hash
+      param_hash = blake2b(digest_size = 8)
+      param_hash.update(full_name.encode('utf-8'))
+      cls_name = re.sub( r'[^A-Za-z0-9_$]', '_', cls_name )
+      if not cls_name or not re.match( r'[A-Za-z_]', cls_name ):
+        cls_name = '_' + cls_name
+      return f'{cls_name}__{param_hash.hexdigest()}'
+    if len(full_name) < 64 and re.fullmatch( r'[A-Za-z_][A-Za-z0-9_$]*', full_name ):
       return full_name
     param_hash = blake2b(digest_size = 8)
-    param_hash.update(s.get_field_str().encode('ascii'))
+    param_hash.update(s.get_field_str().encode('utf-8'))
     return f'{s.cls.__name__}__{param_hash.hexdigest()}'
 
   # def get_file_info( s ):
